@@ -806,6 +806,7 @@ pub struct Plan {
     pub div_cases: usize,       // extra division / sqrt / legendre operands
     pub split_cases: usize,
     pub gcd_sweep: usize,
+    pub mulsearch: usize,
     pub profile: String,
 }
 
@@ -1121,6 +1122,70 @@ fn run_div<F: FieldApi>(tr: &mut Trace, rng: &mut Rng, plan: &Plan) {
     }
 }
 
+/// Result-targeted products: operand pairs a, b whose raw patterns both have their top
+/// `k` bits set (so that the double-width product is within 2^-k of its maximum and the
+/// reduction takes its rare extra-carry paths) and whose product modulo q is a chosen
+/// boundary value t (a few units above a limb boundary, below the fold constant, just
+/// below q): b is solved as t/a and a is varied until b has the required shape.
+fn run_mulsearch<F: FieldApi>(tr: &mut Trace, rng: &mut Rng, plan: &Plan) {
+    if plan.mulsearch == 0 { return; }
+    let q = F::modulus();
+    let one = BigUint::from(1u32);
+    let bits = 8 * F::RAW_LEN;
+    let top = &one << bits;
+    let fold = &top % &q;
+    let k = 21usize;
+    let floor = &top - (&one << (bits - k));
+    let mut targets: Vec<BigUint> = Vec::new();
+    for j in 1..(F::RAW_LEN / 8).min(3) {
+        let base = &one << (64 * j);
+        for d in [BigUint::from(0u32), &fold - 1u32, BigUint::from(rng.u64()) % &fold] {
+            let t = &base + &d;
+            if t < q { targets.push(t); }
+        }
+    }
+    targets.push(&q - 1u32); targets.push(one.clone());
+    let mut m = Mach::<F>::new(tr);
+    let mut found = 0usize;
+    let mut tries = 0usize;
+    let per_target = 6_000_000usize;      // P(hit) = 2^-21 per try: 95% per target
+    const BATCH: usize = 512;
+    for t in targets.iter() {
+        if tries >= plan.mulsearch { break; }
+        let mut n = 0;
+        'search: while n < per_target {
+            // a_i = 2^bits - 1 - alpha_i with alpha_i below 2^(bits - k); all inverted with one modular
+            // inversion (Montgomery's trick)
+            let aa: Vec<BigUint> = (0..BATCH).map(|_| {
+                let alpha = BigUint::from_bytes_le(&rng.bytes(F::RAW_LEN)) >> (k + rng.below(40));
+                &top - 1u32 - &alpha }).collect();
+            let ar: Vec<BigUint> = aa.iter().map(|a| a % &q).collect();
+            let mut pre: Vec<BigUint> = Vec::with_capacity(BATCH);
+            let mut acc = one.clone();
+            for x in ar.iter() { pre.push(acc.clone()); acc = (&acc * x) % &q; }
+            let mut inv = match acc.modinv(&q) { Some(x) => x, None => { n += BATCH; continue; } };
+            for i in (0..BATCH).rev() {
+                let ainv = (&inv * &pre[i]) % &q;
+                inv = (&inv * &ar[i]) % &q;
+                n += 1; tries += 1;
+                let b0 = (t * ainv) % &q;
+                let mut b = b0.clone();
+                let mut hit = None;
+                while b < top { if b >= floor { hit = Some(b.clone()); } b += &q; }
+                if let Some(b) = hit {
+                    found += 1;
+                    let ok = m.raw(0, &to_le(&aa[i], F::RAW_LEN), found as u32) && m.raw(1, &to_le(&b, F::RAW_LEN), 0)
+                        && m.bin("mul", 2, 0, 1, found as u32) && m.bin("mul", 3, 1, 0, 1)
+                        && m.un("square", 4, 0, 0) && m.bin("mul", 5, 2, 1, 0) && m.bin("add", 6, 2, 3, 0);
+                    if !ok { m = Mach::<F>::new(tr); }
+                    break 'search;
+                }
+            }
+        }
+    }
+    eprintln!("mulsearch {}: {} pairs found in {} tries", F::NAME, found, tries);
+}
+
 fn run_split<F: FieldApi>(tr: &mut Trace, rng: &mut Rng, plan: &Plan) {
     let q = F::modulus();
     if let Ok(None) = guarded(|| F::split(F::cst("ONE"))) { return; }
@@ -1180,6 +1245,7 @@ pub fn run_type<F: FieldApi>(tr: &mut Trace, rng: &mut Rng, what: &str, plan: &P
             "codec" => run_codec::<F>(tr, rng, plan),
             "div" => run_div::<F>(tr, rng, plan),
             "split" => run_split::<F>(tr, rng, plan),
+            "mulsearch" => run_mulsearch::<F>(tr, rng, plan),
             _ => panic!("unknown field sub-domain {}", w),
         }
     }
